@@ -523,7 +523,7 @@ def space_case(rng, recipe, op, poison=False, special=False):
     if bases == {'int'}:
         scs = [0, 1, -1, 2, 3, 0.5, 2.5]
     kind = 'div' if 'div' in op else ('pow' if op == 'ipow' else 'any')
-    x = mk_element(rng, recipe, 'pow' if op == 'ipow' else ('div' if op in ('divide', 'ipow_neg') else 'any'))
+    x = mk_element(rng, recipe, 'pow' if op in ('ipow', 'pow') else ('div' if op in ('divide', 'ipow_neg') else 'any'))
     same = rng.random() < 0.2
     y = x if same else mk_element(rng, recipe, kind, share=(x if (kind == 'any' and rng.random() < 0.25) else None))
     if op in ('itruediv', 'truediv', 'divide', 'el_divide', 'truediv_arr', 'divide_noout') and same:
@@ -724,6 +724,17 @@ def space_case(rng, recipe, op, poison=False, special=False):
                 else:
                     res = space.divide(x, y) if op == 'divide_noout' else x.divide(y)
                     wop = 'WDivide %s %s %s' % (tx, ty, ctx.term(res, True))
+            elif op == 'pow':
+                pw = rng.randint(0, 5)
+                desc['p'] = pw
+                res = x ** pw
+                assert res is not x
+                wop = 'WPow %s %s %d %s %s %s' % (C.b(_is_pse(x)), tx, pw, ctx.term(res, True), ctx.hidden_like(x),
+                                                 ctx.hidden_like(x))
+            elif op == 'lincomb_noout':
+                a, b = rng.choice(CX_PAIRS if cxs else (INT_PAIRS[:11] if bases == {'int'} else REAL_PAIRS))
+                res = space.lincomb(a, x, b, y)
+                wop = 'WLincomb2 %s %s %s %s %s' % (cl(a), tx, cl(b), ty, ctx.term(res, True))
             elif op == 'ipow_neg':
                 pw = rng.randint(1, 3)
                 desc['p'] = -pw
@@ -827,7 +838,7 @@ OPS = ['lincomb2', 'lincomb1', 'multiply', 'divide', 'assign', 'set_zero', 'copy
        'iadd_s', 'isub_s', 'imul_s', 'itruediv_s', 'add_s', 'radd_s', 'sub_s', 'rsub_s', 'mul_s', 'rmul_s',
        'truediv_s', 'rtruediv_s', 'neg', 'pos', 'ipow', 'ipow_neg',
        'add_arr', 'iadd_arr', 'sub_arr', 'rsub_arr', 'mul_arr', 'imul_arr', 'truediv_arr',
-       'el_lincomb', 'multiply_noout', 'divide_noout', 'el_multiply', 'el_divide']
+       'el_lincomb', 'multiply_noout', 'divide_noout', 'el_multiply', 'el_divide', 'pow', 'lincomb_noout']
 DATA_DUNDERS = ['__add__', '__radd__', '__iadd__', '__sub__', '__rsub__', '__isub__', '__mul__', '__rmul__', '__imul__',
                 '__truediv__', '__rtruediv__', '__itruediv__']
 DATA_OPS = ['data:%s:%s' % (d, k) for d in DATA_DUNDERS for k in ('list', 'tuple', 'ndarray')]
@@ -1121,6 +1132,58 @@ def oracle(kind, **p):
             if y is not x and op != 'assign':
                 ok = ok and val(y) == py
             return ok, got[:4], want[:4]
+        if kind == 'data_op':
+            # binary operator with the other operand given as plain data (nested list / tuple / ndarray):
+            # entry-wise NumPy result on copies; in-place returns self; the data object is not modified
+            import random as _r, operator as _o, copy as _c
+            prng = _r.Random(p['seed'])
+            recipe, dn, dk = p['recipe'], p['dunder'], p['data']
+            x = mk_element(prng, recipe, 'div' if dn == '__rtruediv__' else 'any')
+            y = mk_element(prng, recipe, 'div' if dn in ('__truediv__', '__itruediv__') else 'any')
+
+            def as_data(el):
+                if _is_pse(el):
+                    parts = [as_data(pp) for pp in el.parts]
+                    return tuple(parts) if dk == 'tuple' else parts
+                arr_ = np.array(np.asarray(el), copy=True)
+                if dk == 'ndarray':
+                    return arr_
+                if dk == 'tuple':
+                    return tuple(arr_.tolist()) if arr_.ndim == 1 else tuple(map(tuple, arr_.reshape(arr_.shape[0], -1).tolist())) \
+                        if arr_.ndim == 2 else arr_.tolist()
+                return arr_.tolist()
+            data = as_data(y)
+            keep = _c.deepcopy(data)
+            lx = [np.array(t.data, copy=True) for t in leaf_tensors(x)]
+            ly = [np.array(t.data, copy=True) for t in leaf_tensors(y)]
+            f = {'add': lambda u, v: u + v, 'sub': lambda u, v: u - v, 'rsub': lambda u, v: v - u, 'mul': lambda u, v: u * v,
+                 'truediv': lambda u, v: u / v, 'rtruediv': lambda u, v: v / u}[dn.strip('_').lstrip('i') if dn not in ('__radd__', '__rmul__', '__rsub__', '__rtruediv__', '__isub__', '__imul__', '__iadd__', '__itruediv__') else
+                                                                                {'__radd__': 'add', '__rmul__': 'mul', '__rsub__': 'rsub', '__rtruediv__': 'rtruediv', '__isub__': 'sub', '__imul__': 'mul', '__iadd__': 'add', '__itruediv__': 'truediv'}[dn]]
+            want = [f(u, v) for u, v in zip(lx, ly)]
+            natural = dk != 'ndarray'
+            call = {'__add__': lambda: x + data, '__sub__': lambda: x - data, '__mul__': lambda: x * data,
+                    '__truediv__': lambda: x / data, '__iadd__': lambda: _o.iadd(x, data), '__isub__': lambda: _o.isub(x, data),
+                    '__imul__': lambda: _o.imul(x, data), '__itruediv__': lambda: _o.itruediv(x, data),
+                    '__radd__': (lambda: data + x) if natural else (lambda: x.__radd__(data)),
+                    '__rsub__': (lambda: data - x) if natural else (lambda: x.__rsub__(data)),
+                    '__rmul__': (lambda: data * x) if natural else (lambda: x.__rmul__(data)),
+                    '__rtruediv__': (lambda: data / x) if natural else (lambda: x.__rtruediv__(data))}[dn]
+            res = call()
+            got = [np.asarray(t.data) for t in leaf_tensors(res)]
+            ok = len(got) == len(want) and all(_close(gv, wv, gv.dtype) for gv, wv in zip(got, want))
+            if dn.startswith('__i'):
+                ok = ok and res is x
+            else:
+                ok = ok and res is not x and all(np.array_equal(t.data, u) for t, u in zip(leaf_tensors(x), lx))
+
+            def same_data(a_, b_):
+                if isinstance(a_, np.ndarray):
+                    return np.array_equal(a_, b_)
+                if isinstance(a_, (list, tuple)):
+                    return type(a_) is type(b_) and len(a_) == len(b_) and all(same_data(u, v) for u, v in zip(a_, b_))
+                return a_ == b_
+            ok = ok and same_data(data, keep)
+            return ok, [gv.ravel()[:4].tolist() for gv in got][:3], [np.asarray(wv).ravel()[:4].tolist() for wv in want][:3]
         if kind == 'reject':
             # operands from another space are rejected with an exception and nothing is modified
             import random as _r
@@ -1370,6 +1433,19 @@ def probes(rng, tier):
                                '%s %s(%d): %s%s with entries up to 2**60, exact' % (sk, dtype, n, op, ' (self)' if same else ''),
                                'int_exact', dtype=dtype, n=n, op=op, same=same, space=sk, c=rng.choice([1, 2, 3]),
                                seed=rng.randint(0, 10 ** 6))
+    # 1h. every binary operator with the other operand as plain data (the array-like fallback branches)
+    drecipes = [('T', 'float64', (3,)), ('T', 'float64', (2, 3)), ('D', 'float64', (4,)), ('D', 'complex128', (2, 2)),
+                ('T', 'float32', (120,)), ('P', [('T', 'float64', (3,)), ('D', 'float64', (2,))]),
+                ('P', [('T', 'float64', (2,))] * 3),
+                ('P', [('P', [('T', 'float64', (2,)), ('D', 'float64', (2, 2))]), ('T', 'float64', (3,))])]
+    if not quick:
+        drecipes += [rand_recipe(rng, rng.choice(['real', 'cx']), rng.randint(1, 3)) for _ in range(10)]
+    for r in drecipes:
+        for dn in DATA_DUNDERS:
+            for dk in ('list', 'tuple', 'ndarray'):
+                _probe(out, 'data-operand-%s-%s-%s' % (dn.strip('_'), dk, _spacekind(r)),
+                       '%s with the other operand given as %s on %r vs NumPy on the leaves' % (dn, dk, r),
+                       'data_op', recipe=r, dunder=dn, data=dk, seed=rng.randint(0, 10 ** 6))
     # 1g. operands that are not elements of the space are rejected and nothing is modified
     pairs_r = [(('T', 'float64', (3,)), ('T', 'float64', (4,))), (('T', 'float64', (3,)), ('T', 'float32', (3,))),
                (('T', 'float64', (3,)), ('T', 'complex128', (3,))), (('D', 'float64', (3,)), ('T', 'float64', (3,))),
